@@ -790,8 +790,8 @@ def r19(rr, repo):
     za = anchors(repo)
     got = za.RS_got
     rets = [n for n in walk_scope(got) if isinstance(n, ast.Return) and n.value is not None]
-    if len(rets) != 1 or len([s for s in got.body if not (isinstance(s, ast.Expr) and isinstance(s.value, ast.Constant))]) != 1:
-        rr.unresolved('Sender.got is no longer a single return expression', za.mod, got, key='got-table')
+    if len(rets) != 1 or any(isinstance(s, (ast.Assign, ast.AugAssign, ast.For, ast.While)) for s in walk_scope(got)):      # (log lines next to the return do not matter)
+        rr.unresolved('Sender.got is no longer one return expression over the set', za.mod, got, key='got-table')
         return
     X, Y = Sym('frame_a', nn=True), Sym('frame_b', nn=True)
     cases = [('no set', Lit(None), 'none'), ('nothing received', Dct({'a': Lit(None), 'b': Lit(None)}), 'none'), ('partly received', Dct({'a': X, 'b': Lit(None)}), 'some'),
